@@ -3,6 +3,7 @@ use crate::hist::*;
 use crate::kinds::*;
 
 pub struct Suite {
+    #[allow(dead_code)]
     pub name: String,
     pub kinds: Vec<KindId>,
     pub lens: Vec<usize>,
@@ -12,6 +13,7 @@ pub struct Suite {
     /// run every history also on the underlying reference-yielding iterator (C13)
     pub pair: bool,
     pub allow_zero: bool,
+    pub mode: Mode,
 }
 
 impl Suite {
@@ -40,7 +42,7 @@ fn kinds_where(f: impl Fn(&crate::exec::KindInfo) -> bool) -> Vec<KindId> {
 }
 fn small_kinds() -> Vec<KindId> {
     // every kind except the element-size variants
-    ALL_KINDS.iter().copied().filter(|k| !matches!(k, KindId::OVec24 | KindId::OArray24 | KindId::Iter24)).collect()
+    ALL_KINDS.iter().copied().filter(|k| !matches!(k, KindId::OVec24 | KindId::OArray24 | KindId::Iter24 | KindId::RangeX)).collect()
 }
 
 pub fn suite(name: &str, thorough: bool) -> Suite {
@@ -48,7 +50,7 @@ pub fn suite(name: &str, thorough: bool) -> Suite {
     let l04: Vec<usize> = (0..=4).collect();
     let l06: Vec<usize> = (0..=6).collect();
     let lens = if thorough { l06.clone() } else { l04.clone() };
-    let mut s = Suite { name: name.to_string(), kinds: small_kinds(), lens, alphabet: alphabet(&MAIN), depth: if thorough { 6 } else { 5 }, terms: t3.clone(), pair: false, allow_zero: false };
+    let mut s = Suite { name: name.to_string(), kinds: small_kinds(), lens, alphabet: alphabet(&MAIN), depth: if thorough { 6 } else { 5 }, terms: t3.clone(), pair: false, allow_zero: false, mode: Mode::Normal };
     match name {
         "main" | "C04" | "C17" => {
             if name == "C04" {
@@ -101,6 +103,39 @@ pub fn suite(name: &str, thorough: bool) -> Suite {
             s.pair = true;
             s.alphabet = alphabet(&["N", "I", "C2:a", "C3:1", "C1:0", "HC2", "HN1", "HD", "BN2", "BXa", "BX1", "BD", "S", "EF2", "V", "L", "H", "FO2"]);
             s.depth = if thorough { 5 } else { 4 };
+        }
+        "C16" => {
+            // every kind, extreme one-shot and buffered chunk sizes, zero sizes (documented panics)
+            s.allow_zero = true;
+            s.lens = vec![0, 1, 2, 3];
+            s.alphabet = alphabet(&["N", "C0:a", "C1:a", "CL0:a", "CL1:a", "CHh:a", "CHp1:1", "CMm1:a", "CMx:a", "CMx:0", "BNMx", "BNHp1", "BN2", "BXa", "BX1", "BD", "S", "FE0", "BN0", "FO0", "EF0", "I"]);
+            s.depth = if thorough { 4 } else { 3 };
+            s.terms = vec![Term::Drop, Term::Seq(ALL)];
+        }
+        "C16R" => {
+            // ranges with bounds from the grid {0,1,7,M/2-1,M/2,M/2+1,M-2,M-1,M}^2 (incl. empty and inverted)
+            s.allow_zero = true;
+            s.kinds = vec![KindId::RangeX];
+            s.lens = (0..9).flat_map(|a| (0..9).map(move |b| a * 16 + b)).collect();
+            s.alphabet = alphabet(&["N", "I", "C0:2", "C1:2", "C2:2", "C7:2", "CHh:2", "CHp1:2", "CMm1:2", "CMx:2", "BN1", "BN7", "BNHp1", "BNMx", "BX2", "BD", "S", "BN0", "FE0"]);
+            s.depth = if thorough { 4 } else { 3 };
+            s.terms = vec![Term::Drop, Term::Seq(2)];
+        }
+        "C14" => {
+            // every safe public entry point incl. the low-level traits, on consuming collections
+            s.mode = Mode::LowLevel;
+            s.kinds = vec![KindId::OVec, KindId::OArray];
+            s.lens = vec![1, 2, 3];
+            s.alphabet = alphabet(&["N", "C2:a", "BN2", "BXa", "S", "F1", "FN2", "PR1", "PR2", "EE", "CA1", "CI", "GET0", "GET1", "GETL0", "CS0", "CS1", "CSL0"]);
+            s.depth = if thorough { 4 } else { 3 };
+            s.terms = vec![Term::Drop, Term::Seq(ALL)];
+        }
+        "C19" => {
+            s.mode = Mode::Multi;
+            s.kinds = vec![KindId::Slice, KindId::VecRef, KindId::ArrayRef, KindId::Range5];
+            s.alphabet = alphabet(&["N", "I", "C2:a", "C3:1", "BN2", "S", "NI", "CL", "SEL0", "SEL1", "SEL2"]);
+            s.depth = if thorough { 6 } else { 5 };
+            s.terms = vec![Term::Drop, Term::Seq(ALL)];
         }
         "C02" => {
             s.alphabet = alphabet(&["I", "W", "C2:a", "C3:1", "BN2", "BN3", "BXa", "BX1", "EF1", "EF2", "EF3", "N", "S", "HC2", "HN1"]);
